@@ -108,7 +108,8 @@ def meet(a, b):
 
 
 class Analysis:
-    def __init__(self, data):
+    def __init__(self, data, repo="/repo"):
+        self.repo = os.path.realpath(repo)
         self.units = {u["name"]: u for u in data["units"]}
         self.problems = list(data.get("problems") or [])
         self.notes = list(data.get("notes") or [])
@@ -126,6 +127,10 @@ class Analysis:
         self.inh = self.fix_locks()
         self.inh_once = self.fix_onces()
         self.once_units = self.once_bodies()
+
+    def rel(self, path):
+        p = os.path.realpath(path)
+        return os.path.relpath(p, self.repo) if p.startswith(self.repo + os.sep) else path
 
     # ---- who may call a unit from outside / what is held at such an entry
     def is_entry(self, u):
@@ -263,7 +268,7 @@ class Analysis:
                     held[op["loc"] + "#" + op["via"]] = True
                 why = "fresh" if op.get("fresh") else "init" if n in INIT else None
                 raw.append(dict(loc=op["loc"], kind=op["k"], held=held, fn=n, why=why, once_body=body_of,
-                                onces=set(op["onces"]) | self.inh_once[n], file=u["file"], line=op["line"], via=op["via"]))
+                                onces=set(op["onces"]) | self.inh_once[n], file=self.rel(u["file"]), line=op["line"], via=op["via"]))
         # J-once: the body of a Do is set-up for a field iff every other access of the field is behind that Do
         by_loc = {}
         for a in raw:
@@ -375,7 +380,7 @@ def build(repo):
         data = extract(repo)
     except Shape as e:
         return [], [str(e)], [], None
-    an = Analysis(data)
+    an = Analysis(data, repo)
     table = an.accesses()
     return table, an.problems, an.notes, an
 
